@@ -874,7 +874,7 @@ def r12_20(chk):
 def r12_21(chk):
     chk.rule("R12.21", "what trim_stop_codon removes is the codon it detected: in both sequence modules the gapped branch builds its terminal-stop pattern from the codon that was tested with gc.is_stop(...) (the sequence's own spelling), not from the genetic code's table gc['*'] -- the table is spelt in DNA, is_stop reads U as T, so for a gapped RNA sequence the stop is detected (has_terminal_stop() True) and nothing is removed")
     n = 0
-    for rel, q in (("core/sequence.py", "NucleicAcidSequence.trim_stop_codon"), ("core/new_sequence.py", "NucleicAcidSequenceMixin.trim_stop_codon")):
+    for rel, q in (("core/sequence.py", "NucleicAcidSequence.trim_stop_codon"), ("core/new_sequence.py", "NucleicAcidSequenceMixin.trim_stop_codon"), ("core/alignment.py", "AlignmentI.trim_stop_codons")):
         m = chk.repo.module(rel)
         fn = m.func(q)
         tested = [norm(c.args[0]) for c in walk_no_nested(fn) if isinstance(c, ast.Call) and isinstance(c.func, ast.Attribute) and c.func.attr == "is_stop" and c.args]
@@ -886,19 +886,49 @@ def r12_21(chk):
             continue
         n += 1
         src = pats[0].value if pats else comps[0].args[0]
-        from_table = [x for x in ast.walk(src) if isinstance(x, ast.Subscript) and isinstance(x.slice, ast.Constant) and x.slice.value == "*"]
-        names = {x.id for x in ast.walk(src) if isinstance(x, ast.Name)}
+        # the pattern's ingredients, following locals back to their definitions
+        parts = [src]
+        names = set()
+        grew = True
+        while grew:
+            grew = False
+            for prt in list(parts):
+                for x in ast.walk(prt):
+                    if isinstance(x, ast.Name) and x.id not in names:
+                        names.add(x.id)
+                        for st in walk_no_nested(fn):
+                            if isinstance(st, ast.Assign) and any(isinstance(t, ast.Name) and t.id == x.id for t in st.targets) and st.value not in parts:
+                                parts.append(st.value)
+                                grew = True
+        from_table = [x for prt in parts for x in ast.walk(prt) if isinstance(x, ast.Subscript) and isinstance(x.slice, ast.Constant) and x.slice.value == "*"]
         from_tested = bool(tested) and any(t in names for t in tested)
         if from_table and not from_tested:
             # tolerated when the table's spellings are converted to the sequence's alphabet first
             conv = any(isinstance(c, ast.Call) and isinstance(c.func, ast.Attribute) and c.func.attr == "replace" and [getattr(a, "value", None) for a in c.args] == ["T", "U"] for c in ast.walk(fn))
-            chk.decide(conv, "R12.21", k, m.loc(src), "table spellings converted T->U for RNA", f"the pattern is built from `{norm(from_table[0])}` (DNA spellings) while the stop was detected with is_stop({tested[0] if tested else '?'}) (which reads U as T): RNA 'AUGCCCUAA---' keeps its stop, and translating it raises 'stop codon in translation'")
+            chk.decide(conv, "R12.21", k, m.loc(src), "table spellings converted T->U for RNA", f"the pattern is built from `{norm(from_table[0])}` (DNA spellings) while the stop was detected with {'is_stop(' + tested[0] + ')' if tested else 'has_terminal_stop()'} (which reads U as T): RNA 'AUGCCCUAA---' keeps its stop, and translating it raises 'stop codon in translation'")
         else:
             chk.decide(from_tested, "R12.21", k, m.loc(src), f"pattern built from `{tested[0] if tested else ''}`", "the removal pattern derives neither from the tested codon nor from the code's table")
-    chk.floor("R12.21", 2, "old and new trim_stop_codon")
+    chk.floor("R12.21", 3, "old and new trim_stop_codon, alignment-level trim_stop_codons")
+
+
+def r12_22(chk):
+    chk.rule("R12.22", "the old-type translation accepts RNA: NucleicAcidSequence.get_translation resolves every codon against the genetic code's codon alphabet, which is spelt in DNA -- so the text it cuts into codons is first converted U->T (or taken from to_dna()); without that every RNA codon containing U is 'unresolvable' and no old-type RNA sequence, collection or alignment can be translated, while the new-type objects translate the same text")
+    m = chk.repo.module("core/sequence.py")
+    q = "NucleicAcidSequence.get_translation"
+    fn = m.func(q)
+    res = [c for c in walk_no_nested(fn) if isinstance(c, ast.Call) and isinstance(c.func, ast.Attribute) and c.func.attr == "resolve_ambiguity" and any(kw.arg == "alphabet" for kw in c.keywords)]
+    k = key(m, q, "codons spelt in DNA before they are resolved")
+    if not res:
+        chk.ok("R12.22", k, m.loc(fn), "codons are not resolved against a codon alphabet here", nontrivial=False)
+        chk.floor("R12.22", 0, "")
+        return
+    conv = [c for c in walk_no_nested(fn) if isinstance(c, ast.Call) and isinstance(c.func, ast.Attribute) and ((c.func.attr == "replace" and [getattr(a, "value", None) for a in c.args] == ["U", "T"]) or c.func.attr == "to_dna")]
+    chk.decide(bool(conv), "R12.22", k, m.loc(conv[0] if conv else res[0]), f"`{norm(conv[0])[:40] if conv else ''}` before the codons are resolved", "codons are resolved against the code's DNA-spelt codon alphabet as they are: RNA.make_seq('AUGCCC').get_translation() raises AlphabetError(\"unresolvable codon 'AUG'\") -- the new-type RNA sequence gives 'MP'")
+    chk.floor("R12.22", 1, "old get_translation")
 
 
 def run(chk):
+    r12_22(chk)
     r12_21(chk)
     r12_20(chk)
     r12_19(chk)
